@@ -1,6 +1,7 @@
 package harness
 
 import (
+	"context"
 	"fmt"
 	"html/template"
 	"sort"
@@ -146,6 +147,18 @@ func (o *VObj) PV(id int, v interface{}) (interface{}, error) {
 	}
 	return v, nil
 }
+
+// closingIter is a plush Iterator (Next) that also has the io.Closer method.
+type closingIter struct{ n, i int }
+
+func (c *closingIter) Next() interface{} {
+	if c.i >= c.n {
+		return nil
+	}
+	c.i++
+	return c.i
+}
+func (c *closingIter) Close() error { return nil }
 
 // Dual is reached from templates both by value ("dv") and through a pointer
 // ("dp"). Its method set differs between Dual (Archive, Balance) and *Dual
@@ -488,6 +501,17 @@ func (rt *Runtime) helperData() map[string]interface{} {
 			return s, nil
 		},
 	}
+	// citer: a fresh Iterator with a Close method per call
+	d["citer"] = func() *closingIter { return &closingIter{n: 3} }
+	// vh: same name, same number of parameters, another trailing parameter for every caller
+	switch rt.Variant {
+	case 0:
+		d["vh"] = func(a int, opts map[string]interface{}) string { return fmt.Sprintf("vh%d opts=%d", a, len(opts)) }
+	case 1:
+		d["vh"] = func(a int, help plush.HelperContext) string { return fmt.Sprintf("vh%d block=%v", a, help.HasBlock()) }
+	default:
+		d["vh"] = func(a int, extra interface{}) string { return fmt.Sprintf("vh%d extra=%v", a, extra) }
+	}
 	if rt.Variant == 1 {
 		// this caller overrides two default helpers: its values win in this context and all its descendants
 		d["upcase"] = func(s string) string { return "UP(" + s + ")" }
@@ -518,6 +542,20 @@ func (rt *Runtime) render() (out string, err error) {
 	}()
 	herr := underSim(func() {
 		switch renderEntry {
+		case 4: // the caller's Go context is already cancelled (plush does not look at it; a failure stays the failure)
+			cctx, cancel := context.WithCancel(context.Background())
+			cancel()
+			c := plush.NewContextWithContext(cctx)
+			for k, v := range rt.contextData() {
+				c.Set(k, v)
+			}
+			var t *plush.Template
+			if t, err = plush.NewTemplate(rt.Prog.Main); err != nil {
+				out = ""
+				return
+			}
+			out, err = t.Exec(c)
+			return
 		case 1: // the entry point buffalo uses: data and helpers as two maps
 			out, err = plush.BuffaloRenderer(rt.Prog.Main, rt.plainData(), rt.helperData())
 			return
